@@ -910,7 +910,14 @@ Definition spec_step (c : cfg) (st : astate) (nx : N) (o : op) : option sres :=
       match get_a v st with Some a => if Nat.eqb dst v then None else sp_new c st nx dst (a_bk a) | None => None end
   | OCloneEmptyIn v dst bk =>
       match get_a v st with Some _ => if Nat.eqb dst v then None else sp_new c st nx dst bk | None => None end
-  | OWithCapacity dst bk _ => if resizable bk then sp_new c st nx dst bk else None
+  | OWithCapacity dst bk n =>
+      if resizable bk then
+        (* a capacity whose size in bytes is not representable, or no valid layout, is refused before anything is
+           allocated or replaced (cf. [sp_capacity]) *)
+        if layout_limit c bk <? c_sz c * n
+        then Some (panic_res (if usize_max <? c_sz c * n then POverflow else PLayout) [] st nx)
+        else sp_new c st nx dst bk
+      else None
   | OPush a v s =>
       if fresh_src s then sp_offer c st nx v None
       else match a, s with
